@@ -28,13 +28,19 @@ Section AssocLemmas.
         * exact IH.
   Qed.
 
-  Lemma alookup_adel_some k k' (v : V) l :
-    alookup keqb k' (adel keqb k l) = Some v -> alookup keqb k' l = Some v \/ exists v', alookup keqb k' l = Some v'.
+  Lemma alookup_adel k k' l :
+    alookup keqb k' (adel keqb k l) = if keqb k' k then None else alookup keqb k' (l : list (K * V)).
   Proof.
-    induction l as [|[k0 v0] t IH]; simpl; [discriminate|].
-    destruct (keqb k k0) eqn:E0.
-    - destruct (keqb k' k0); eauto.
-    - simpl. destruct (keqb k' k0); eauto.
+    induction l as [|[k0 v0] t IH]; simpl.
+    - destruct (keqb k' k); reflexivity.
+    - destruct (keqb k k0) eqn:E0.
+      + rewrite IH. destruct (keqb k' k) eqn:E1; auto.
+        destruct (keqb k' k0) eqn:E2; auto. apply keqb_spec in E0. apply keqb_spec in E2. subst.
+        rewrite keqb_refl in E1. discriminate.
+      + simpl. destruct (keqb k' k0) eqn:E2.
+        * destruct (keqb k' k) eqn:E1; auto. apply keqb_spec in E1. apply keqb_spec in E2. subst.
+          rewrite keqb_refl in E0. discriminate.
+        * exact IH.
   Qed.
 
   Lemma alookup_in k (v : V) l : alookup keqb k l = Some v -> In (k, v) l.
